@@ -11,7 +11,7 @@ def main(argv):
     w = make_world(specs)
     verbose = "-v" in argv
     argv = [a for a in argv if a != "-v"]
-    fqs = argv or list(specs.contracts)
+    fqs = argv or [k for k, c in specs.contracts.items() if not c.trusted]
     bad = 0
     for fq in fqs:
         if fq not in specs.contracts:
